@@ -632,7 +632,7 @@ func Property(id string) runner.Property {
 	return runner.Property{
 		ID:           id,
 		Level:        "model_checking",
-		QuickBudgetS: 300,
+		QuickBudgetS: 600,
 		Rule:         "filterSubscription seam (real parent cache, root subscription, publisher, filterSubscription immediate/deferred, nested under filtered clones); three concurrent drivers: parent first list + history (creates, label flips in and out of the filter, deletes, relist), Refilter script (incl. back to an earlier filter and a non-comparable FN), node construction; all interleavings (S1) for the smallest, deviation-bounded (S2, d<=2 quick / 3 thorough) otherwise; " + rule[id],
 		Assumptions: []string{
 			"histories of <= 3 parent operations over 2 keys, <= 2 Refilter calls, nesting depth <= 2",
